@@ -93,8 +93,13 @@ class Relocate(Contract):
   def inputs(self, b):
     self._clone = None
     cls = pg.List if self.variant == 'list-container' else pg.Dict
-    self._owner = SObj(pg.Object, {}, name='owner') if self.variant == 'object-attributes-container' else None
-    cont = SObj(cls, {'_sym_path': path_obj(b, 'cpath'), '_sym_parent': self._owner or SAny('grandparent'),
+    # ancestor chain of the container: root <- [owner <-] container
+    root = SObj(pg.Dict, {'_sym_parent': None, '_sym_path': path_obj(b, 'rpath'),
+                          '_as_object_attributes_container': False}, name='root')
+    self._root = root
+    self._owner = SObj(pg.Object, {'_sym_parent': root}, name='owner') \
+        if self.variant == 'object-attributes-container' else None
+    cont = SObj(cls, {'_sym_path': path_obj(b, 'cpath'), '_sym_parent': self._owner or root,
                       '_as_object_attributes_container': self.variant == 'object-attributes-container'},
                 name='container')
     other = SObj(pg.Dict, {}, name='other_parent')
@@ -103,7 +108,8 @@ class Relocate(Contract):
     node = SObj(pg.Dict, {'_sym_parent': self._old_parent, '_sym_path': self._old_path,
                           '_as_object_attributes_container': False}, name='value')
     self._node = node
-    value = b.choice('value_kind', [b.int('leaf'), node])
+    # the value: a leaf, an unrelated node, or the root ancestor of the container
+    value = b.choice('value_kind', [b.int('leaf'), node, root])
     return dict(self=cont, key=b.int('key'), value=value), {}
 
   def pfc(self, container):
@@ -120,6 +126,9 @@ class Relocate(Contract):
   def ensures_copy_unless_free_or_already_here(self, self_, key, value, result):
     if not isinstance(value, base.Symbolic):
       return True
+    if value is self._root:
+      # an ancestor of the container: adopting it would close a cycle
+      return result is not value and result is self._clone and value._sym_parent is None
     old_parent = self._old_parent
     free = old_parent is None
     here = old_parent is self_ and self._old_path._keys == self_._sym_path._keys + [key]
